@@ -62,13 +62,17 @@ Definition encode_packed (value : bytes) : res Z :=
   if 31 <? len value then Err
   else of_option (scalar_of_be (pack_bytes value)).
 
+(** Rust's [data[n..]]: panics when the start lies beyond the end (or [n] underflowed). *)
+Definition slice_from (n : Z) (data : bytes) : res bytes :=
+  if (0 <=? n) && (n <=? len data) then Ok (skipn (Z.to_nat n) data) else Panic.
+
 (** The length byte position read by the two decoders. *)
 Definition unpack (pos : nat) (s : Z) : res bytes :=
   let data := to_be 32 s in
   match nth_error data pos with
-  | None => Panic
-  | Some l => if 32 <? l then Panic (* 32 - len underflows / slice start beyond the end *)
-              else Ok (skipn (Z.to_nat (32 - l)) data)
+  | None => Panic                      (* data[pos] *)
+  | Some l => if 32 <? l then Err      (* explicit length check (fix 428bbc8) *)
+              else slice_from (32 - l) data   (* data[32 - len..] *)
   end.
 
 Section Codec.
@@ -110,7 +114,7 @@ Section Codec.
         | _ => Err
         end
     | TScalar =>
-        if negb (Nat.eqb (length data) 32) then Panic
+        if negb (Nat.eqb (length data) 32) then Err   (* checked conversion to [u8; 32] (fix 3b055e9) *)
         else match scalar_of_be data with Some s => Ok (CScalar s) | None => Err end
     | TRevocation =>
         if negb (Nat.eqb (length data) 16) then Err
@@ -225,6 +229,8 @@ Section Codec.
          | Some b => of_option (scalar_of_be b)
          end.
 
+  Definition is_hexb (c : Z) : bool := match hex_val c with Some _ => true | None => false end.
+
   Definition to_text (c : claim) : res bytes :=
     match c with
     | CHashed v true => if is_utf8 v then Ok (pfx_ut8 ++ v) else Panic
@@ -235,8 +241,8 @@ Section Codec.
     | CEnum dst value total => Ok (pfx_enm ++ hex_encode (bare_enum dst value total))
     end.
 
-  (** [&s[0..4]] on a str: panics when shorter than 4 bytes or when byte 4 is a UTF-8
-      continuation byte (not a character boundary). *)
+  (** [s.get(0..4)] / [s.get(4..)] on a str: [None] when shorter than 4 bytes or when byte 4 is a
+      UTF-8 continuation byte (not a character boundary); [&s[0..4]] would panic there. *)
   Definition char_boundary_at4 (s : bytes) : bool :=
     match nth_error s 4 with
     | None => true
@@ -244,7 +250,7 @@ Section Codec.
     end.
 
   Definition from_text (s : bytes) : res claim :=
-    if (len s <? 4) || negb (char_boundary_at4 s) then Panic
+    if (len s <? 4) || negb (char_boundary_at4 s) then Err   (* fix 3b055e9 *)
     else
       let p := firstn 4 s in
       let rest := skipn 4 s in
@@ -253,7 +259,10 @@ Section Codec.
       else if list_eqb p pfx_ut8 then Ok (CHashed rest true)
       else if list_eqb p pfx_num then
         match parse_isize rest with Some v => Ok (CNumber v) | None => Err end
-      else if list_eqb p pfx_scl then rmap CScalar (scalar_from_be_hex rest)
+      else if list_eqb p pfx_scl then
+        (* guard added by fix 3b055e9 in front of the panicking library call *)
+        if (len rest <? 64) || negb (forallb is_hexb (firstn 64 rest)) then Err
+        else rmap CScalar (scalar_from_be_hex rest)
       else if list_eqb p pfx_rev then Ok (CRevocation rest)
       else if list_eqb p pfx_enm then
         match hex_decode rest with
